@@ -680,13 +680,9 @@ class Real:
             return {'add': operator.add, 'sub': operator.sub, 'mul': operator.mul, 'div': operator.truediv,
                     'pow': operator.pow}[p['o']](a, b)
         if t == 'arrp':
-            if p['uk'] is not None and len(p['uk']) > 2:
-                raise Skip('more unique keys than arguments: refused by Expr.__init__')
             from chempy.kinetics.arrhenius import ArrheniusParam
             return ArrheniusParam(self.num(p['A']), self.num(p['Ea'])).as_RateExpr(None if p['uk'] is None else tuple(p['uk']))
         if t == 'eyrp':
-            if p['uk'] is not None and len(p['uk']) > 3:
-                raise Skip('more unique keys than arguments: refused by Expr.__init__')
             from chempy.kinetics.eyring import EyringParam
             return EyringParam(self.num(p['dH']), self.num(p['dS'])).as_RateExpr(None if p['uk'] is None else tuple(p['uk']))
         raise KeyError(t)
@@ -789,6 +785,11 @@ class C16(Property):
         'named overrides under arithmetic composition: that an override still replaces exactly its own argument inside arbitrary trees '
         '(+ - * / ** neg, reflected) is decided by the oracle (wrapper_case) and the correspondence; the theorems cover all_args of one '
         'instance (override_replaces_exactly) and the refusal of UnaryWrapper arithmetic with unique keys (unarywrapper_refuses_unique_keys)',
+        'conversion of sympy operands by _implicit_conversion (Symbol, Float, two-argument Add / Mul, Pow; refusals for Integer / Rational atoms, '
+        'three-argument Add / Mul, sympy object as left operand): oracle only (sympyop cases), not in the Lean model',
+        'Expr.__eq__, Expr.arg with a str index, rate_coeff of composite expressions, get_named_keys, g_value, the callback factories '
+        '(MassAction.from_callback / subclass_from_callback, UnaryWrapper.from_callback, MassActionEq.from_callback), the refusals of '
+        'Expr.__init__ for custom classes and Reaction.rate_expr for str / number / Expr params: oracle only (api cases)',
         'linearised fits (fit_arrhenius_equation, fit_eyring_equation, _fit_linearized: numpy least squares): exploration only, not checked',
     )
     anchors = (('chempy/util/_expr.py', 'Expr.__init__'), ('chempy/util/_expr.py', 'Expr.arg'), ('chempy/util/_expr.py', 'Expr.all_args'),
@@ -1159,9 +1160,13 @@ class C16(Property):
             return out
 
         if t == 'arrp':
+            if p['uk'] is not None and len(p['uk']) > 2:
+                raise Skip('more unique keys than arguments: refused by Expr.__init__')
             A, E = arguments(2, [lambda: p['A'], lambda: p['Ea'] / R_GAS], p['uk'], None)
             return A * be.exp(-E / V('temperature')) * concprod()
         if t == 'eyrp':
+            if p['uk'] is not None and len(p['uk']) > 3:
+                raise Skip('more unique keys than arguments: refused by Expr.__init__')
             c0, c1 = arguments(2, [lambda: KB_OVER_H * be.exp(p['dS'] / R_GAS), lambda: p['dH'] / R_GAS], p['uk'], None)
             order()
             return c0 * V('temperature') * be.exp(-c1 / V('temperature')) * concprod()
